@@ -238,6 +238,9 @@ func (ex *Exec) frameAssume(st *State, key string, oldH, newH Term) {
 	var allowed []Term
 	r := Term{"r!f", SInt}
 	for _, a := range ex.assignsLocs {
+		if a.wholeKey && keyMatches(a.loc, key) {
+			return // the whole array may be assigned: nothing to assume
+		}
 		if a.loc.Alloc != nil || len(a.loc.Dims) == 0 {
 			continue
 		}
